@@ -193,7 +193,7 @@ Proof. unfold h_flushdb. repeat sim_branch; sim_close H. Qed.
 Lemma h_append_sim parts : sim (snd (h_append d1 parts)) (snd (h_append d2 parts)).
 Proof. unfold h_append. go; sim_close H. Qed.
 Lemma h_setrange_sim parts : sim (snd (h_setrange d1 parts)) (snd (h_setrange d2 parts)).
-Proof. unfold h_setrange. go; sim_close H. Qed.
+Proof. unfold h_setrange, eng_setrange. go; sim_close H. Qed.
 
 Lemma eng_incr_by_sim k inc : sim (snd (eng_incr_by d1 k inc)) (snd (eng_incr_by d2 k inc)).
 Proof. unfold eng_incr_by. go; sim_close H. Qed.
@@ -604,7 +604,7 @@ Definition set_plan (d : db) (parts : list frame) : plan :=
       match arg_bytes v with
       | None => PKeep
       | Some vb =>
-          match parse_set_opts (length parts) (skipn 3 parts) None false false with
+          match parse_set_opts (length parts) (skipn 3 parts) None false false false false with
           | SetSyntax | SetBadExpire => PKeep
           | SetOpts ttl nx xx =>
               if nx && xx then PKeep else
@@ -627,7 +627,7 @@ Definition setex_plan (mult : Z) (parts : list frame) : plan :=
   match nth_arg parts 1, nth_arg parts 2, nth_arg parts 3 with
   | Some k, Some a, Some v =>
       match parse_u64 a with
-      | Some n => if ttl_ok (n * mult) then PSet k (VStr v) (Some (n * mult)) else PKeep
+      | Some n => if n =? 0 then PKeep else if ttl_ok (n * mult) then PSet k (VStr v) (Some (n * mult)) else PKeep
       | None => PKeep
       end
   | _, _, _ => PKeep
@@ -678,7 +678,7 @@ Proof.
     destruct (nth_error parts 2) as [v|]; try (cbn; auto; fail).
   destruct (beq k []); [cbn; auto|]. destruct (arg_bytes v) as [vb|]; [|cbn; auto].
   rewrite !(exists_has_key t d k F).
-  destruct (parse_set_opts (length parts) (skipn 3 parts) None false false) as [ttl nx xx| |]; try (cbn; auto; fail).
+  destruct (parse_set_opts (length parts) (skipn 3 parts) None false false false false) as [ttl nx xx| |]; try (cbn; auto; fail).
   destruct (nx && xx); [cbn; auto|].
   destruct ttl as [ms|]; [destruct (ttl_ok ms)|]; destruct nx; destruct xx; destruct (has_key d k);
     cbn [fst snd run_plan is_err r_err r_ok r_nil]; repeat split; intros; try reflexivity; try discriminate.
@@ -690,7 +690,7 @@ Proof.
     destruct (nth_error parts 2) as [v|]; try apply plan_key_keep.
   assert (K : forall v t, plan_key (PSet k v t) parts) by (intros; unfold plan_key; rewrite E1; reflexivity).
   destruct (beq k []); [apply plan_key_keep|]. destruct (arg_bytes v) as [vb|]; [|apply plan_key_keep].
-  destruct (parse_set_opts (length parts) (skipn 3 parts) None false false) as [ttl nx xx| |]; try apply plan_key_keep.
+  destruct (parse_set_opts (length parts) (skipn 3 parts) None false false false false) as [ttl nx xx| |]; try apply plan_key_keep.
   destruct (nx && xx); [apply plan_key_keep|].
   destruct ttl as [ms|]; [destruct (ttl_ok ms)|]; destruct nx; destruct xx; destruct (has_key d k);
     first [apply plan_key_keep | apply K].
@@ -704,6 +704,7 @@ Proof.
   unfold h_setex, setex_plan. destruct (negb (nparts parts =? 4)); [cbn; auto|].
   destruct (nth_arg parts 1) as [k|] eqn:Ek; [|cbn; auto]. destruct (nth_arg parts 2) as [a|]; [|cbn; auto].
   destruct (parse_u64 a) as [n|]; [|destruct (nth_arg parts 3); cbn; auto].
+  destruct (n =? 0); [destruct (nth_arg parts 3); cbn; auto|].
   destruct (nth_arg parts 3) as [v|]; [|cbn; auto]. destruct (ttl_ok (n * m)); cbn [fst snd run_plan is_err r_ok r_err]; repeat split; intros; try reflexivity; try discriminate; try exact K.
   apply nth_arg_bulk in Ek. unfold plan_key. rewrite Ek. reflexivity.
 Qed.
